@@ -1,6 +1,6 @@
 // Driver for the real crypto::Shamir (C10).   shamir <script> <trace-out>
-// Every script line is executed in a forked child under a watchdog (alarm + address-space
-// limit), so a split that never terminates is REPORTED (event "abnormal"), not hung.
+// Every script line is executed in a forked child under a watchdog (CPU-time limit, wall alarm,
+// address-space limit), so a split that never terminates is REPORTED (event "abnormal"), not hung.
 //
 //   gf                                   all 65 536 gf_mul / gf_div results of the real tables
 //                                        (anonymous-namespace functions reached by TU inclusion)
@@ -209,14 +209,20 @@ int main(int argc, char** argv) {
             ev::Ev("cmd").s("text", txt).emit();
         }
         std::fflush(ev::out());
+        const long start = std::ftell(ev::out());
         const pid_t pid = fork();
         if (pid < 0) { std::perror("fork"); return 2; }
+        const long budget = (c.op == "bij" || c.op == "gf") ? g_watchdog_s * 10 : g_watchdog_s;
         if (pid == 0) {
+            // watchdog: CPU seconds (a runaway loop burns CPU; robust against a loaded machine) plus a generous
+            // wall-clock alarm; address-space limit so that a runaway allocation ends in bad_alloc, not in swap
             struct rlimit rl; rl.rlim_cur = rl.rlim_max = 1500ull * 1024 * 1024;
 #if !defined(__SANITIZE_ADDRESS__)
             setrlimit(RLIMIT_AS, &rl);
 #endif
-            alarm(static_cast<unsigned>(c.op == "bij" || c.op == "gf" ? g_watchdog_s * 10 : g_watchdog_s));
+            struct rlimit cpu; cpu.rlim_cur = static_cast<rlim_t>(budget); cpu.rlim_max = static_cast<rlim_t>(budget + 1);
+            setrlimit(RLIMIT_CPU, &cpu);
+            alarm(static_cast<unsigned>(budget * 20));
             if (c.op == "gf") do_gf();
             else if (c.op == "case") do_case(c);
             else if (c.op == "bij") do_bij(c);
@@ -225,12 +231,25 @@ int main(int argc, char** argv) {
         }
         int st = 0;
         if (waitpid(pid, &st, 0) < 0) { std::perror("waitpid"); return 2; }
+        const bool abnormal = WIFSIGNALED(st) || WEXITSTATUS(st) != 0;
+        if (abnormal) {
+            // the child may have died in the middle of a line: cut the file back to its last complete line
+            const int fd = fileno(ev::out());
+            const off_t size = lseek(fd, 0, SEEK_END);
+            off_t keep = start;
+            if (size > start) {
+                std::vector<char> buf(static_cast<size_t>(size - start));
+                if (pread(fd, buf.data(), buf.size(), start) == static_cast<ssize_t>(buf.size()))
+                    for (size_t k = buf.size(); k > 0; --k) if (buf[k - 1] == '\n') { keep = start + static_cast<off_t>(k); break; }
+            }
+            if (ftruncate(fd, keep) != 0) std::perror("ftruncate");
+        }
         std::fseek(ev::out(), 0, SEEK_END);
         if (WIFSIGNALED(st)) {
             const int sig = WTERMSIG(st);
-            ev::Ev("abnormal").i("line", line).s("cmd", c.op).s("how", sig == SIGALRM ? "hang" : "crash").i("sig", sig).i("watchdog_s", g_watchdog_s).emit();
+            ev::Ev("abnormal").i("line", line).s("cmd", c.op).s("how", (sig == SIGALRM || sig == SIGXCPU || sig == SIGKILL) ? "hang" : "crash").i("sig", sig).i("watchdog_s", budget).emit();
         } else if (WEXITSTATUS(st) != 0) {
-            ev::Ev("abnormal").i("line", line).s("cmd", c.op).s("how", "exit").i("sig", WEXITSTATUS(st)).i("watchdog_s", g_watchdog_s).emit();
+            ev::Ev("abnormal").i("line", line).s("cmd", c.op).s("how", "exit").i("sig", WEXITSTATUS(st)).i("watchdog_s", budget).emit();
         }
     }
     std::fflush(ev::out());
